@@ -107,11 +107,37 @@ def _check_eq(ctx, tag, loc, inst, fields):
                    "than 'self is other'")
         elif rv == ("const", False):
             last_pol, last = taken[-1]
-            sound = last_pol and last in (
+            UNEQ = (
                 ("compare", ("IsNot",), ("typeof", SELF), (("typeof", OTHER),)),
                 ("compare", ("NotEq",), ("typeof", SELF), (("typeof", OTHER),)),
                 ("compare", ("NotEq",), ("call", "hash", (SELF,), ()),
                  (("call", "hash", (OTHER,), ()),)))
+            EQ = (
+                ("compare", ("Is",), ("typeof", SELF), (("typeof", OTHER),)),
+                ("compare", ("Eq",), ("typeof", SELF), (("typeof", OTHER),)),
+                ("compare", ("Eq",), ("call", "hash", (SELF,), ()),
+                 (("call", "hash", (OTHER,), ()),)))
+
+            def implies_unequal(v, pol):
+                """does (v evaluating to pol) imply that self != other?"""
+                while isinstance(v, tuple) and v[0] == "unop" and v[1] == "Not":
+                    v, pol = v[2], not pol
+                if pol and v in UNEQ:
+                    return True
+                if not pol and v in EQ:
+                    return True
+                if isinstance(v, tuple) and v[0] == "boolop":
+                    if v[1] == "Or" and pol:
+                        # some disjunct holds: every one of them must imply it
+                        return all(implies_unequal(x, True) for x in v[2])
+                    if v[1] == "And" and not pol:
+                        return all(implies_unequal(x, False) for x in v[2])
+                    if v[1] == "And" and pol:
+                        return any(implies_unequal(x, True) for x in v[2])
+                    if v[1] == "Or" and not pol:
+                        return any(implies_unequal(x, False) for x in v[2])
+                return False
+            sound = implies_unequal(last, last_pol)
             ctx.ob(f"{tag}/eq/false-implies-unequal", sound, loc,
                    "early False only when the class or the hashes differ"
                    if sound else
@@ -230,13 +256,24 @@ def check_state(ctx, tag, loc, inst, fields):
     want_tuple = ("lit", "tuple", tuple(("attr", SELF, f) for f in fields))
     nondc = ("compare", ("NotIn",), ("const", "_is_expr_dataclass"),
              (("attr", ("typeof", SELF), "__dict__"),))
+    isdc = ("compare", ("In",), ("const", "_is_expr_dataclass"),
+            (("attr", ("typeof", SELF), "__dict__"),))
+
+    def is_legacy(ps):
+        """the path is taken for a non-dataclass subclass"""
+        for _, pol, v in ps.conds:
+            while isinstance(v, tuple) and v[0] == "unop" and v[1] == "Not":
+                v, pol = v[2], not pol
+            if (v == nondc and pol) or (v == isdc and not pol):
+                return True
+        return False
     saw = set()
     for ps in summarize(gs, plain=True):
         if ps.term != "return":
             ctx.ob(f"{tag}/getstate/falls-off", False, loc,
                    "generated __getstate__ can return None")
             continue
-        legacy = any(pol and v == nondc for _, pol, v in ps.conds)
+        legacy = is_legacy(ps)
         if legacy:
             ok = ps.retval == ("call", "Expression.__getstate__", (SELF,), ())
             saw.add("legacy")
@@ -259,7 +296,7 @@ def check_state(ctx, tag, loc, inst, fields):
     saw = set()
     names_lit = ("lit", "tuple", tuple(("const", f) for f in fields))
     for ps in summarize(ss, plain=True, loop_mode="01"):
-        legacy = any(pol and v == nondc for _, pol, v in ps.conds)
+        legacy = is_legacy(ps)
         writes = [e for e in ps.events if e.kind == "call"
                   and e.name == "object.__setattr__"]
         if legacy:
@@ -321,18 +358,33 @@ def _legacy_backend(ctx, model):
 
     # is_equal: type test and full init-args comparison
     mem = one("is_equal")
-    ok = False
-    for ps in summarize(mem.node, plain=True):
-        rv = ps.retval
-        if ps.term == "return" and rv[0] == "boolop" and rv[1] == "And":
-            conj = set(rv[2])
-            t1 = ("compare", ("Is",), ("typeof", OTHER), (("typeof", SELF),))
-            t2 = ("compare", ("Is",), ("typeof", SELF), (("typeof", OTHER),))
-            ia = lambda x: ("call", f"{x[1]}.__getinitargs__", (), (),  # noqa
-                            ("recv", x, "__getinitargs__"))
-            c1 = ("compare", ("Eq",), ia(SELF), (ia(OTHER),))
-            c2 = ("compare", ("Eq",), ia(OTHER), (ia(SELF),))
-            ok = bool({t1, t2} & conj) and bool({c1, c2} & conj) and len(conj) == 2
+    from ..rules import UnknownAtom, predicate_table
+    ia = lambda x: ("call", f"{x[1]}.__getinitargs__", (), (),  # noqa
+                    ("recv", x, "__getinitargs__"))
+    T_SAME = {("compare", ("Is",), ("typeof", OTHER), (("typeof", SELF),)),
+              ("compare", ("Is",), ("typeof", SELF), (("typeof", OTHER),))}
+    T_DIFF = {("compare", ("IsNot",), ("typeof", OTHER), (("typeof", SELF),)),
+              ("compare", ("IsNot",), ("typeof", SELF), (("typeof", OTHER),))}
+    I_EQ = {("compare", ("Eq",), ia(SELF), (ia(OTHER),)),
+            ("compare", ("Eq",), ia(OTHER), (ia(SELF),))}
+    I_NE = {("compare", ("NotEq",), ia(SELF), (ia(OTHER),)),
+            ("compare", ("NotEq",), ia(OTHER), (ia(SELF),))}
+
+    def atom_of(v):
+        if v in T_SAME:
+            return "T"
+        if v in T_DIFF:
+            return ("T", True)
+        if v in I_EQ:
+            return "I"
+        if v in I_NE:
+            return ("I", True)
+        return None
+    try:
+        tab = predicate_table(summarize(mem.node, plain=True), atom_of, ["T", "I"])
+    except UnknownAtom as e:
+        raise AnalysisError(f"Expression.is_equal: cannot read {e}")
+    ok = all(res == (t and i) for (t, i), res in tab.items())
     ctx.ob("S/legacy/is_equal", ok, E.module.loc(mem.node),
            "is_equal: same type and equal init-args" if ok else
            "Expression.is_equal is not 'same type and __getinitargs__() equal'")
